@@ -457,10 +457,11 @@ def plans(tier):
     if tier == 'quick':
         return {f: [('quick', 4, 0)] for f in FAMILIES}
     res = {f: [('full', 5, 0)] for f in FAMILIES}
-    # the mixin and loops families are the widest ones: the full menus to 4 steps, then the reduced menus one step deeper (the programs
+    # the mixin, loops and limits families are the widest ones: the full menus to 4 steps, then the reduced menus one step deeper (the programs
     # of <= 4 steps of the reduced menus are among those of the full menus and are not judged twice)
     res['mixin'] = [('full', 4, 0), ('quick', 5, 5)]
     res['loops'] = [('full', 4, 0), ('quick', 5, 5)]
+    res['limits'] = [('full', 4, 0), ('quick', 5, 5)]
     return res
 
 
